@@ -7,4 +7,5 @@ mkdir -p bin evidence
 cp /repo/go.sum harness/go.sum
 (cd harness && go build -tags verif -o ../bin/vcheck ./cmd/vcheck)
 (cd harness && go build -tags verif -race -o ../bin/vcheck-race ./cmd/vcheck)
+(R=$(pwd); cd /repo && go build -o $R/bin/garbled ./apps/garbled)
 echo setup ok
